@@ -62,6 +62,8 @@ func runC18(c *kit.Ctx) {
 		c.Check(s.Parent() == recv, s.Parent(), "caller-of-inFlightDown", s.Pos(), "called from receive", "inFlightDown called from an unexpected place")
 	}
 
+	embed(c, "R7", "when the read timeout fails the connection, every outstanding request fails over (the rules of C03, run as one rule here)", 30, runC03)
+
 	// ---- R2 ---------------------------------------------------------------
 	c.StartRule("R2", "the request is counted before its response can be processed", 1)
 	ups := kit.Calls(send, upName)
@@ -168,6 +170,50 @@ func runC18(c *kit.Ctx) {
 
 	// ---- R5 ---------------------------------------------------------------
 	c.StartRule("R5", "arm with now+readTimeout, clear with the zero time, errors are connection failures", 4)
+	{
+		// every connection is created with the configured read timeout
+		rrt := p.Field("", "client", "regionReadTimeout")
+		fnF := p.Field("", "client", "newRegionClientFn")
+		n := 0
+		for _, fn := range p.Funcs {
+			kit.Instrs(fn, func(in ssa.Instruction) {
+				ci, ok := in.(ssa.CallInstruction)
+				if !ok || ci.Common().IsInvoke() || fnF == nil || !isLoadOfField(ci.Common().Value, fnF) {
+					return
+				}
+				n++
+				// the read timeout is the second time.Duration argument (after the flush interval)
+				var durs []ssa.Value
+				for _, a := range ci.Common().Args {
+					if a.Type().String() == "time.Duration" {
+						durs = append(durs, a)
+					}
+				}
+				c.Check(len(durs) == 2 && rrt != nil && isLoadOfField(durs[1], rrt), fn, "configured-read-timeout", ci.Pos(), "the connection is created with c.regionReadTimeout", "a connection is created with something other than the configured read timeout: RegionReadTimeout(d) is silently ignored for it and a silent server is detected only after that other delay")
+			})
+		}
+		if n < 2 {
+			c.Unk(nil, "configured-read-timeout", token.NoPos, "fewer than the two confirmed connection constructions found")
+		}
+	}
+	{
+		// every request that is counted while others (or itself) are outstanding (re)arms the deadline:
+		// no way through inFlightUp skips SetReadDeadline except where the counter is negative
+		e := mustPass(up, func(x ssa.Instruction) bool {
+			cc, ok := x.(*ssa.Call)
+			return ok && kit.CalleeName(cc) == srd
+		}, func(from, to *ssa.BasicBlock) bool {
+			for _, f := range kit.EdgeFacts(from, to) {
+				if cmp, ok := kit.CanonCmp(f.Cond, f.Pol); ok && cmp.Op == token.LSS && isLoadOfField(cmp.X, inFlight) {
+					if k, ok := kit.ConstInt(cmp.Y); ok && k == 0 {
+						return true
+					}
+				}
+			}
+			return false
+		})
+		c.Check(e == nil, up, "every-count-arms", up.Pos(), "every path through inFlightUp sets the read deadline (except where the counter is negative)", "a request can be counted without (re)arming the read deadline (a 'recently armed' shortcut): inFlightDown clears the deadline when the counter passes through zero, so a request sent right after is outstanding with no read deadline and a silent server is never detected: "+c.BlockPath(e))
+	}
 	for _, call := range kit.Calls(up, srd) {
 		c.Check(armsWithTimeout(call, readTimeout), up, "arm-value", call.Pos(), "armed with time.Now().Add(c.readTimeout) (or the zero time when nothing is outstanding)", "inFlightUp arms something other than now+readTimeout")
 	}
